@@ -77,7 +77,9 @@ def h_unary(ctx, fname, D, P, shape, via='algopy', params=None, cplx=False, layo
     for p in range(P):
         for i in np.ndindex(*shape):
             tag = 'p%d%s' % (p, ''.join('_%d' % j for j in i))
-            x0, ex = x0_for_complex(ctx, fname, tag) if cplx else x0_for(ctx, fname, tag)
+            # non-negative integer powers are polynomials: regular everywhere, x0 = 0 included
+            dom = 'exp' if (fname in ('powi', 'powi_np') and params['n'] >= 0) else fname
+            x0, ex = x0_for_complex(ctx, dom, tag) if cplx else x0_for(ctx, dom, tag)
             X[(0, p) + i] = x0
             info[(p,) + i] = ex
             for d in range(1, D):
@@ -260,7 +262,7 @@ def units(tier, seed):
     out = []
 
     def add(name, func, **kw):
-        out.append(Unit('C01/' + name, 'symx.props.c01', func, kw, {'property': PROP, 'path_budget': 200}))
+        out.append(Unit('C01/' + name, 'symx.props.c01', func, kw, {'property': PROP, 'path_budget': 200, 'definedness': True}))
 
     if tier == 'quick':
         cfgs = [(5, 1, ()), (4, 2, (2,))]
